@@ -458,6 +458,15 @@ func classifyOne(p *Prog, eff *effects, mr *mapRange) {
 					sum = eff.sums[mc.Fn.(*ssa.Function)]
 					bindings = mc.Bindings
 				}
+				// a call of a spawning wrapper is a go statement of the function value passed to it: judge that body
+				// (the wrapper's own synchronisation — WaitGroup.Add, limiter send — is order-insensitive)
+				if w := c15Wrappers[cc.StaticCallee()]; w != nil && w.paramIdx < len(cc.Args) {
+					if mcB, ok := stripConv(cc.Args[w.paramIdx]).(*ssa.MakeClosure); ok {
+						sum = eff.sums[mcB.Fn.(*ssa.Function)]
+						bindings = mcB.Bindings
+						args = nil
+					}
+				}
 				if sum == nil {
 					co := calleeObj(cc)
 					if w, outp, known := stdEffect(co, cc); known {
